@@ -244,7 +244,8 @@ def mark_fragment(case, mos):
     left = False
     if e is not None:
         py, vis = e.get("py", {}), e.get("visit", {}).get("out")
-        left = py.get("exc") == "NotImplemented" or (isinstance(vis, dict) and vis.get("exc") == "NotImplemented")
+        left = py.get("exc") == "NotImplemented" or (isinstance(vis, dict) and vis.get("exc") == "NotImplemented") \
+            or bool(e.get("hiddenNotImplemented"))      # ... inside a comprehension part, where the harvest swallows it
     if len(_LEFT) > 50000:
         _LEFT.clear()
     if left:
